@@ -113,9 +113,19 @@ class Out:
         return len(self.b)
 
 
-def render(doc, rng, plain=False):
-    """-> (text, rdoc) where rdoc is the document annotated with spans (for the specification)."""
+HEADER_KIND = {"grmtools": "Grmtools", "eco": "Eco", "original": "Original(YaccOriginalActionKind::GenericParseTree)",
+               "original_noaction": "Original(NoAction)", "original_useraction": "Original(YaccOriginalActionKind::UserAction)"}
+
+
+def render(doc, rng, plain=False, header=False):
+    """-> (text, rdoc) where rdoc is the document annotated with spans (for the specification).
+    header: the text begins with a %grmtools section that names the yacc kind (the form
+    YaccGrammar::from_str / ASTWithValidityInfo::from_str read)."""
     o = Out()
+    if header:
+        o.put(rng.choice(["%grmtools{yacckind: " + HEADER_KIND[doc["kind"]] + "}\n",
+                          "%grmtools {\n  yacckind: " + HEADER_KIND[doc["kind"]] + ",\n}\n\n",
+                          "\n \t%grmtools{yacckind: " + HEADER_KIND[doc["kind"]] + "} "]))
     declared = set()
     for d in doc["decls"]:
         if d["d"] == "token":
